@@ -1157,9 +1157,10 @@ func (s *State) findGroupOnDevice(name string) {
 	if gb.ready {
 		return
 	}
+	m := s.a.lookup["object-group"]
 GROUP:
-	for _, l := range s.a.lookup["object-group"] {
-		ga := l[0]
+	for _, aName := range slices.Sorted(maps.Keys(m)) {
+		ga := m[aName][0]
 		if ga.parsed != gb.parsed {
 			// Type of object-group differs.
 			continue
